@@ -13,7 +13,8 @@
        current code), C07_angles_match_spec_repaired (model of the proposed patch: all trees);
        C07_phi_is_azimuth, C07_theta_is_polar_angle (T1: Phi, Theta trees); the frame matrices are C08's
        subject and are compared numerically with bridge/frames.py here;
-   (3) 3-body polar angle = Dalitz closed form: numeric harness only (not proved);
+   (3) 3-body polar angle = Dalitz closed form: C07_theta_is_dalitz_{12,23,13} in C07_dalitz.v (separate
+       chain, proofs in C07_dalitz_lemmas.v; reuses Dpd.v and C19_lemmas.v);
    (4) a name never denotes two quantities: C07_name_says_value, C07_name_determines_value,
        C07_create_expressions_order_independent, C07_fold_update_perm,
        C07_permuted_topologies_consistent; refuted for double-decay nodes:
